@@ -4,11 +4,10 @@ CONSTANTS
   MaxOps = 2
   ExtendIds <- MCExtend
   InitSets <- MCInit
-  Variant = 3
+  Variant = 5
 INVARIANTS
   TypeOK
   AggregateLaws
-  DefsAgree
   Emit
   EmitWorld
 PROPERTIES
